@@ -4,7 +4,7 @@ CONSTANTS
   NK = 3
   Poss = {0, 3}
   Tags = {0}
-  OpNames = {"insert", "remove", "e_or_insert", "e_insert", "e_remove", "e_replace_none", "e_replace_some", "rc_or_insert", "rc_insert", "rc_remove", "rc_vacant_drop", "re_from_key_or_insert", "re_insert_hashed_nocheck", "re_remove", "e_occ_insert", "e_and_modify_or_insert"}
+  OpNames = {"insert", "remove", "e_or_insert", "e_insert", "e_remove", "e_replace_none", "e_replace_some", "rc_or_insert", "rc_insert", "rc_remove", "rc_vacant_drop", "re_from_key_or_insert", "re_insert_hashed_nocheck", "re_remove", "e_occ_insert"}
   Vals = {1}
   KIds = {1}
   Es = 8
